@@ -19,8 +19,12 @@ Require Import Grits.spec.RtTyping Grits.spec.Topo Grits.proofs.RuntimeFacts Gri
 Require Import Grits.spec.Sax Grits.proofs.Causality Grits.proofs.SaxRefine Grits.proofs.SaxInv Grits.proofs.SaxTyped.
 
 (* ------------------------------------------------------------------ spawned processes as objects *)
-Definition spawn_objs (ss : list spawn) : list sobj :=
-  flat_map (fun s => proc_obj (Proc (sp_provs s) (sp_body s) 0)) ss.
+(* a spawned process is read without its identifier when it has one provider or is a forward *)
+Definition plain (provs : list name) (body : form) : Prop := (exists n, provs = [n]) \/ is_fwd body = true.
+Lemma proc_obj_plain q provs body nx : plain provs body -> proc_obj q (Proc provs body nx) = pobj provs body.
+Proof.
+  unfold proc_obj, pobj. cbn. intros [[n ->]|Hf]; [done|]. destruct provs as [|n1 [|n2 [|]]]; try done. by destruct body.
+Qed.
 
 Lemma add_spawns_fst_delete self q ss : forall next pm, q <> self ++ [next] -> (forall i, q <> self ++ [(next + i)%nat]) ->
   delete q (add_spawns self next ss pm).1 = (add_spawns self next ss (delete q pm)).1.
@@ -33,13 +37,15 @@ Proof.
 Qed.
 
 Lemma add_spawns_objs self ss : forall next pm,
+  Forall (fun s => plain (sp_provs s) (sp_body s)) ss ->
   (forall i, (i < length ss)%nat -> pm !! (self ++ [(next + i)%nat]) = None) ->
   procs_objs (add_spawns self next ss pm).1 ≡ₚ spawn_objs ss ++ procs_objs pm.
 Proof.
-  induction ss as [|s ss IH]; intros next pm Hfresh; cbn; [done|].
-  rewrite IH.
+  induction ss as [|s ss IH]; intros next pm Hpl Hfresh; cbn; [done|].
+  apply Forall_cons_iff in Hpl as [Hs Hpl].
+  rewrite IH; [|done|].
   - rewrite procs_objs_insert_fresh.
-    + unfold spawn_objs. cbn. rewrite <- !app_assoc. apply Permutation_app_swap_app.
+    + rewrite (proc_obj_plain _ _ _ _ Hs). unfold spawn_objs. cbn. rewrite <- !app_assoc. apply Permutation_app_swap_app.
     + specialize (Hfresh 0%nat). rewrite Nat.add_0_r in Hfresh. apply Hfresh. cbn. lia.
   - intros i Hi. rewrite lookup_insert_ne.
     + specialize (Hfresh (S i)). replace (next + S i)%nat with (S next + i)%nat in Hfresh by lia. apply Hfresh. cbn. lia.
@@ -68,17 +74,17 @@ Qed.
 
 (* an effect that ends the acting process and spawns *)
 Lemma alpha_finish c1 self p ss cs :
-  procs c1 !! self = Some p ->
+  procs c1 !! self = Some p -> Forall (fun s => plain (sp_provs s) (sp_body s)) ss ->
   (forall i, (i < length ss)%nat -> procs c1 !! (self ++ [(pr_next p + length cs + i)%nat]) = None) ->
   (forall k, k ∈ cs -> chans c1 !! k = None) ->
   α (apply_effect c1 self p (Eff Finish ss cs [] [])) ≡ₚ
   spawn_objs ss ++ procs_objs (delete self (procs c1)) ++ chans_objs (chans c1).
 Proof.
-  intros Hp Hfresh Hcs. unfold α, apply_effect. cbn.
+  intros Hp Hpl Hfresh Hcs. unfold α, apply_effect. cbn.
   destruct (add_spawns self (pr_next p + length cs) ss (procs c1)) as [pm next1] eqn:Hadd. cbn.
   assert (pm = (add_spawns self (pr_next p + length cs) ss (procs c1)).1) as -> by (by rewrite Hadd).
   rewrite add_spawns_fst_delete; [|apply self_ne_snoc|intros i; apply self_ne_snoc].
-  rewrite add_spawns_objs.
+  rewrite add_spawns_objs; [|done|].
   - rewrite chans_objs_new_list by done. by rewrite <- app_assoc.
   - intros i Hi. apply lookup_delete_None. right. by apply Hfresh.
 Qed.
@@ -87,18 +93,19 @@ Qed.
 Lemma droppable_fwds_spec self : forall cl p ss cs p',
   droppable_fwds self p cl = (ss, cs, p') -> Forall (fun n => is_Some (chan n)) cl ->
   length ss = length cl /\ cs = map (fun i => self ++ [(pr_next p + i)%nat]) (seq 0 (length cl)) /\
-  spawn_objs ss = map SDrop (names_cids cl).
+  spawn_objs ss = map SDrop (names_cids cl) /\ Forall (fun s => plain (sp_provs s) (sp_body s)) ss.
 Proof.
   induction cl as [|n cl IH]; intros p ss cs p' H Hall; cbn in H.
-  - simplify_eq. done.
+  - simplify_eq. split_and!; try done.
   - unfold droppable_fwd, fresh_chan in H. cbn in H.
     destruct (droppable_fwds self _ cl) as [[ss1 cs1] p2] eqn:Hrec. simplify_eq.
     apply Forall_cons_iff in Hall as [[b Hb] Hall].
-    destruct (IH _ _ _ _ Hrec Hall) as (Hl & Hcs & Hobjs). cbn in Hcs. split_and!.
+    destruct (IH _ _ _ _ Hrec Hall) as (Hl & Hcs & Hobjs & Hpl). cbn in Hcs. split_and!.
     + cbn. by rewrite Hl.
     + cbn. rewrite Nat.add_0_r. f_equal. rewrite Hcs, <- seq_shift, map_map. apply map_ext. intros i. f_equal. f_equal. lia.
-    + unfold spawn_objs in *. cbn. rewrite Hobjs. unfold proc_obj. cbn. unfold names_cids. cbn.
+    + unfold spawn_objs in *. cbn. rewrite Hobjs. unfold names_cids. cbn.
       unfold name_cids. by rewrite Hb.
+    + constructor; [left; cbn; eauto|done].
 Qed.
 
 (* ------------------------------------------------------------------ freshness from ns_ok *)
@@ -148,28 +155,29 @@ Lemma refine_drop c self n a x k next b :
 Proof.
   intros Hp Hn Hx Hb Hns.
   assert (α c ≡ₚ [SProc a (FDrop x k)] ++ procs_objs (delete self (procs c)) ++ chans_objs (chans c)) as Hc.
-  { rewrite (alpha_lookup c self _ Hp). unfold proc_obj. cbn. by rewrite Hn. }
+  { rewrite (alpha_lookup c self _ Hp). unfold proc_obj, pobj. cbn. by rewrite Hn. }
   eapply (sax_oneS [SProc a (FDrop x k)] [obj a k; SDrop b]); [exact Hc| |by apply s_drop].
   unfold α, apply_effect. cbn.
   rewrite procs_objs_insert. rewrite delete_insert_ne by apply self_ne_snoc.
   rewrite procs_objs_insert_fresh.
   2:{ apply lookup_delete_None. right. eapply (ns_fresh_proc c self _ _ Hns Hp). cbn. lia. }
   rewrite chans_objs_new by (eapply (ns_fresh_chan c self _ _ Hns Hp); cbn; lia).
-  unfold proc_obj. cbn. rewrite Hn, Hb. cbn. done.
+  unfold proc_obj, pobj. cbn. rewrite Hn, Hb. cbn. done.
 Qed.
 
 (* a step that ends the acting process, consumes the message on k and spawns: one structural step *)
 Lemma refine_finish c self p k st m ss cs L :
   procs c !! self = Some p -> chans c !! k = Some st -> ch_buf st = Some m -> ns_ok c ->
   cs = map (fun i => self ++ [(pr_next p + i)%nat]) (seq 0 (length cs)) ->
-  L ≡ₚ proc_obj p ++ msg_obj k m ->
+  Forall (fun s => plain (sp_provs s) (sp_body s)) ss ->
+  L ≡ₚ proc_obj self p ++ msg_obj k m ->
   sred_str (procs_objs (delete self (procs c)) ++ chans_objs (delete k (chans c))) L [] (spawn_objs ss) ->
   sax_step F true (α c) [] (α (apply_effect (put_msg c k st None) self p (Eff Finish ss cs [] []))).
 Proof.
-  intros Hp Hk Hb Hns Hcs HL Hr. eapply sax_oneS; [| |exact Hr].
+  intros Hp Hk Hb Hns Hcs Hpl HL Hr. eapply sax_oneS; [| |exact Hr].
   - rewrite (alpha_lookup c self p Hp), (chans_objs_lookup _ k st Hk), HL. unfold chan_obj. rewrite Hb.
     rewrite <- !app_assoc. f_equiv. rewrite !app_assoc. f_equiv. apply Permutation_app_comm.
-  - rewrite alpha_finish; [| done | |].
+  - rewrite alpha_finish; [| done | done | |].
     + cbn [procs chans put_msg]. rewrite chans_objs_insert. cbn. done.
     + intros i Hi. cbn [procs put_msg]. eapply (ns_fresh_proc c self p _ Hns Hp). lia.
     + intros k' Hk'. rewrite Hcs in Hk'. apply elem_of_list_In, in_map_iff in Hk' as (i & <- & _).
@@ -305,14 +313,14 @@ Proof.
       rewrite Hf in He. cbn in He. destruct (droppable_fwds self p (free_names body)) as [[ss cs] p']. by simplify_eq. }
     destruct (droppable_fwds self p (free_names body)) as [[ss cs] p'] eqn:Hdf.
     destruct (ct_procs _ _ _ _ _ Hc self p Hp) as (s & rs & _ & _ & Hty). cbn in Hty.
-    destruct (droppable_fwds_spec self _ _ _ _ _ Hdf) as (Hlen & Hcs & Hobjs).
+    destruct (droppable_fwds_spec self _ _ _ _ _ Hdf) as (Hlen & Hcs & Hobjs & Hpl).
     { apply Forall_forall. intros x Hx. destruct (free_names_closed D F teq Δ rs s body x Hty Hx) as [t Hct].
       by eapply chan_ty_init. }
     exists []. split; [right|by rewrite labels_effect, labels_put].
     eapply (refine_finish F c self p a st m ss cs [SDrop a; SProc a body]); try done.
     + assert (length (free_names body) = length cs) as Hlc by (rewrite Hcs; by rewrite map_length, seq_length).
       rewrite Hcs at 1. f_equal. f_equal. exact Hlc.
-    + unfold proc_obj, msg_obj. cbn. rewrite Hn, Hrule, (recv_form_obj n body next a Hact Hnf a). apply Permutation_swap.
+    + unfold proc_obj, pobj, msg_obj. cbn. rewrite Hn, Hrule, (recv_form_obj n body next a Hact Hnf a). apply Permutation_swap.
     + rewrite Hobjs. apply (s_gc _ a (SProc a body)). done.
   - (* a linear rule *)
     destruct (refines_sax01_at D F c self c') as (ls & H01 & Hl); [|done|exists ls; split; [by apply sax_step01_S|done]].
@@ -320,7 +328,8 @@ Proof.
     + cbn. eauto.
     + done.
     + intros _. split_and!.
-      * intros Hin. apply (alpha_cids_typed_gen D F teq Δ c _ Hc (dc_msgs c Hdc)) in Hin.
+      * intros Hin. apply (alpha_cids_typed_gen D F teq Δ c _ Hc (dc_msgs c Hdc)) in Hin;
+          [|intros q0 pr0 Hq0; by destruct (dc_procs c Hdc q0 pr0 Hq0)].
         pose proof (ns_fresh_chan c self p (pr_next p) Hns Hp ltac:(lia)) as H0. destruct Hin as [x Hx].
         unfold p in *. cbn in *. pose proof (eq_trans (eq_sym Hx) H0) as E. discriminate E.
       * eapply (ns_fresh_chan c self p _ Hns Hp). lia.
@@ -382,7 +391,7 @@ Proof.
       destruct (fwd_polarity D from) as [[| |]|?|?]; try done; destruct (chan from); by simplify_eq. }
     destruct Hstep as (st & Hk & Hb & ->). exists []. split; [|unfold labels; cbn; by rewrite app_nil_r].
     left. split; [done|]. symmetry. eapply refine_send; [exact Hp|exact Hk|exact Hb|].
-    unfold proc_obj, msg_obj. cbn. by rewrite Hn, Hto, Hfrom.
+    unfold proc_obj, pobj, msg_obj. cbn. by rewrite Hn, Hto, Hfrom.
   - (* a message arrives on the dropped channel: it is dropped, and so are the channels it carries *)
     assert (is_self to = true /\ chan from = Some k) as (Hto & Hfrom).
     { unfold p in Hact. cbn in Hact. destruct (is_self to); [|done]. cbn in Hact.
@@ -401,7 +410,7 @@ Proof.
     { unfold on_message in He. cbn in He.
       rewrite !andb_false_r in He. fold cl in He. destruct (droppable_fwds self p cl) as [[ss cs] p']. by simplify_eq. }
     destruct (droppable_fwds self p cl) as [[ss cs] p'] eqn:Hdf.
-    destruct (droppable_fwds_spec self _ _ _ _ _ Hdf) as (Hlen & Hcs & Hobjs).
+    destruct (droppable_fwds_spec self _ _ _ _ _ Hdf) as (Hlen & Hcs & Hobjs & Hpl).
     { unfold cl. apply Forall_app. split; apply Forall_init. }
     assert (names_cids cl = name_cids (m_c1 m) ++ name_cids (m_c2 m)) as Hcl.
     { unfold cl. by rewrite names_cids_app, !names_cids_init. }
@@ -416,7 +425,7 @@ Proof.
     eapply (refine_finish F c self p k st m ss cs [SDrop k; SMsgP k V]); try done.
     + assert (length cl = length cs) as Hlc by (rewrite Hcs; by rewrite map_length, seq_length).
       rewrite Hcs at 1. f_equal. f_equal. exact Hlc.
-    + unfold proc_obj. cbn. by rewrite Hn, Hto, Hfrom, HmV.
+    + unfold proc_obj, pobj. cbn. by rewrite Hn, Hto, Hfrom, HmV.
     + rewrite Hobjs, <- HV. by apply (s_gc _ k (SMsgP k V)).
 Qed.
 End drop_step2.
@@ -665,6 +674,7 @@ Proof.
   destruct (refines_drop_run _ _ _ (teq_rt_laws _) (proj1 Hst) HFa HFn HFs _ _ _ HI Hdc Hrun) as (ls & Hs & Hl).
   exists (α (res_config r)). rewrite Hl. change (labels (init_config p')) with (@nil string). cbn.
   eapply sax_steps_perm; [symmetry; apply alpha_init|done].
+  intros q pr Hq. by destruct (dc_procs _ Hdc q pr Hq).
 Qed.
 
 Definition c04_drop_text (txt : string) : bool :=
@@ -748,6 +758,7 @@ Proof.
               (fun _ => bufs_empty_init p') Hrun) as (ls & Hs & Hl).
   exists (α (res_config r)). rewrite Hl. change (labels (init_config p')) with (@nil string). cbn.
   eapply sax_steps_perm; [symmetry; apply alpha_init|done].
+  intros q pr Hq. by destruct (dc_procs _ Hdc q pr Hq).
 Qed.
 
 (* ------------------------------------------------------------------ C04, first sentence, for contraction-free programs:
